@@ -11,7 +11,7 @@ import io, importlib
 from .. import mutate, refsem
 from ..core import short_exc
 
-BASE = [("f1_expr", 50), ("f2_portrefs", 300), ("f3_noconn", 80), ("f4_bundles", 6), ("f5_arrays", 18), ("f6_pairs", 12), ("f7_hier", 240), ("f9_multifeed", 60)]
+BASE = [("f1_expr", 50), ("f2_portrefs", 300), ("f3_noconn", 80), ("f4_bundles", 8), ("f5_arrays", 22), ("f6_pairs", 20), ("f7_hier", 300), ("f9_multifeed", 60)]
 
 
 def _base_one(item):
